@@ -26,6 +26,8 @@ func init() {
 			runC14Stack(c)
 			runC14Split(c)
 			runC14SplitterUse(c)
+			runVarSetRules(c, "C14-VARSET")
+			runConvIdentity(c, "C14-CONV")
 			base(c, "STATE", "ALIAS", "LABEL")
 		},
 	})
